@@ -140,6 +140,8 @@ def main():
                 out["reproduced"] = not eval_clause_concrete(meta, name, r)
         elif "verdict" in r:
             out["reproduced"] = bool(r["verdict"])
+        if name.startswith("pre@") and "verdict" in r:
+            out["reproduced"] = bool(r["verdict"])
     except Exception:
         out["observed"]["clause_eval_error"] = traceback.format_exc()[-1200:]
     print(json.dumps(out, default=str))
